@@ -44,6 +44,12 @@ RootOuts(g) == {o \in UNION {ToS(St(g, i).outs) \cup ToS(St(g, i).iouts) : i \in
 
 \* What a command reads, in the order the model command reads it.
 ReadList(s) == s.ex \o s.im \o s.ddi \o s.hdrs
+\* "Header switch" statements (optional fields hsel, hdrs2): which files the command reads beyond its declared inputs is
+\* itself a function of what it reads - hdrs while the selecting source hsel has its first content, hdrs2 afterwards -
+\* and what it writes is a constant (restat-style: an output that is already right is left alone).
+Hsw(s) == "hsel" \in DOMAIN s
+HdrsOf(s, T) == IF Hsw(s) /\ Ct(T, s.hsel).v # "1" THEN s.hdrs2 ELSE s.hdrs
+ReadAll(s) == ReadList(s) \o (IF Hsw(s) THEN s.hdrs2 ELSE <<>>)
 
 LastNone == [has |-> FALSE, vstr |-> "", start |-> 0, end |-> 0, rec |-> {}, recok |-> FALSE, unsure |-> FALSE]
 
@@ -123,10 +129,11 @@ DownFrom(g, T, L, S, fuel) ==
 Downstream(g, T, L, S) == DownFrom(g, T, L, S, Len(g.stmts) + 1)
 
 \* -- contents -------------------------------------------------------------
-NewC(s, pred) == [k |-> s.en, v |-> s.vstr, ins |-> [j \in 1..Len(ReadList(s)) |-> pred[ReadList(s)[j]]]]
+NewC(s, pred) == IF Hsw(s) THEN [k |-> s.en, v |-> s.vstr, ins |-> <<>>]
+                 ELSE [k |-> s.en, v |-> s.vstr, ins |-> [j \in 1..Len(ReadList(s)) |-> pred[ReadList(s)[j]]]]
 OutC(s, o, pred) == IF o = s.mkdd THEN [k |-> "txt", v |-> s.ddtxt, ins |-> <<>>] ELSE NewC(s, pred)
 
-Files(g, T) == Names(T) \cup AllOuts(g) \cup UNION {ToS(ReadList(St(g, i))) : i \in Ids(g)}
+Files(g, T) == Names(T) \cup AllOuts(g) \cup UNION {ToS(ReadAll(St(g, i))) : i \in Ids(g)}
 
 \* Content every file has after a from-scratch build of the current sources
 \* and manifest (outputs of phony statements excluded by the callers).
